@@ -5,7 +5,7 @@
 
 use std::{
     collections::{HashMap, VecDeque},
-    future,
+
     io::{Read, Write},
     net::{SocketAddr, TcpListener as StdListener, TcpStream as StdStream},
     sync::{
@@ -396,7 +396,7 @@ impl Service for LazyService {
     type Request = SlaveRequest<'static>;
     type Response = Option<Response>;
     type Exception = ExceptionCode;
-    type Future = future::Ready<Result<Option<Response>, ExceptionCode>>;
+    type Future = std::pin::Pin<Box<dyn std::future::Future<Output = Result<Option<Response>, ExceptionCode>> + Send>>;
 
     fn call(&self, req: Self::Request) -> Self::Future {
         self.calls
@@ -412,13 +412,28 @@ impl Service for LazyService {
             .get_mut(&self.peer)
             .and_then(VecDeque::pop_front)
             .unwrap_or(Svc::Decline);
-        future::ready(match o {
+        let res = match o {
             Svc::Reply(r) => Ok(Some(r)),
             Svc::Exception(e) => Err(e),
             Svc::Decline => Ok(None),
+        };
+        // a real service takes its time: some calls answer at once, some yield to the scheduler,
+        // some sleep a little – so that requests of other connections are decoded and answered
+        // while this one is still being served
+        let n = SERVICE_CALLS.fetch_add(1, Ordering::Relaxed);
+        Box::pin(async move {
+            match n % 5 {
+                1 => tokio::task::yield_now().await,
+                2 => tokio::time::sleep(Duration::from_micros(300)).await,
+                3 => tokio::time::sleep(Duration::from_millis(2)).await,
+                _ => {}
+            }
+            res
         })
     }
 }
+
+static SERVICE_CALLS: AtomicUsize = AtomicUsize::new(0);
 
 fn rt(workers: usize) -> tokio::runtime::Runtime {
     tokio::runtime::Builder::new_multi_thread()
